@@ -291,7 +291,7 @@ func refIsOr(op string) bool  { return refCanon(op) == "or" }
 // (the engine's eq/ne use it; lists and sets are not comparable).
 func refComparable(v Value) bool {
 	switch v.(type) {
-	case nil, bool, int64, string, dne:
+	case nil, bool, int64, string, dne, int:
 		return true
 	}
 	return false
